@@ -9,6 +9,11 @@ def _c20_case(c):
         return {"op": "R", "registry": unhex(p[1]), "repository": unhex(p[2]), "input": unhex(p[3])}
     if p[0] in ("W", "F"):
         return {"op": "F", "registry": unhex(p[1]), "repository": unhex(p[2]), "reference": unhex(p[3])}
+    if p[0] == "N":
+        return {"op": "N", "kind": p[1], "input": unhex(p[2]), "reference": unhex(p[3])}
+    if p[0] == "E":
+        return {"op": "E", "kind": p[1], "plain": "true" if p[2] == "1" else "false", "registry": unhex(p[3]),
+                "input": unhex(p[4]), "n": unhex(p[5]) or "0"}
     if p[0] == "D":
         return {"op": "D", "kind": p[1], "plain": "true" if p[2] == "1" else "false", "registry": unhex(p[3]),
                 "repository": unhex(p[4]), "reference": unhex(p[5]), "input": unhex(p[6]), "n": unhex(p[7]) or "0"}
